@@ -1,5 +1,6 @@
 pub mod vc_diff;
 pub mod vc_rules;
+pub mod vc_timeout;
 pub mod vc_verdict;
 pub mod vc_state;
 pub mod vc_io;
@@ -30,6 +31,7 @@ macro_rules! engines {
 engines! {
     vc_diff::VcDiff => ["C01", "C02", "C03"],
     vc_rules::VcRules => ["C04"],
+    vc_timeout::VcTimeout => ["C14"],
     vc_verdict::VcVerdict => ["C05"],
     vc_state::VcState::new() => ["C12"],
     vc_io::VcIo => ["C13"],
